@@ -315,6 +315,12 @@ def gen_installed(tier):
                         continue
                     cfg = Cfg("v3", auth=auth, priv=priv, key_type=kt, priv_key_type=pkt, discover=disc, auth_pass=password(n), priv_pass=password(n + 3)[3:] or b"x")
                     yield {"cfgs": [cfg.describe()], "history": ([["discover", 0, 2]] if disc else []) + hist}
+    # identical octets for both keys, every pair of key types
+    for auth, priv in ((1, 1), (2, 2), (1, 2), (2, 1)):
+        for kt, pkt in itertools.product((0, 1, 2), repeat=2):
+            for disc in (False, True):
+                cfg = Cfg("v3", auth=auth, priv=priv, key_type=kt, priv_key_type=pkt, discover=disc, same_bytes=True, auth_pass=password(refcrypto.KEYLEN[auth]))
+                yield {"cfgs": [cfg.describe()], "history": ([["discover", 0, 2]] if disc else []) + hist + ([] if disc else [["set_keys", 0], ["get", 0, "sys"]])}
     for elen in (0, 1, 5, 11, 17, 32) if thorough else (1, 32):
         if elen == 0:
             continue  # an empty engine id means "discover"
